@@ -122,8 +122,14 @@ def run(prog: Program, res: Result) -> None:
                 if prog.resolve(mod, node.id) is not None or node.id in mod.functions or node.id in mod.globals_:
                     continue  # a module-level definition that shadows the builtin
                 fi0 = prog.enclosing_function(mod, node)
-                if fi0 is not None and node.id in fi0.params():
-                    continue
+                shadowed = False
+                while fi0 is not None:
+                    if node.id in fi0.params() or any(isinstance(x, ast.Name) and x.id == node.id and isinstance(x.ctx, ast.Store) for x in ast.walk(fi0.node)):
+                        shadowed = True
+                        break
+                    fi0 = fi0.parent_fn
+                if shadowed:
+                    continue  # a local variable / parameter of that name, not the builtin
                 n_ref += 1
                 res.fail("C05.R1", file=mod.relpath, line=node.lineno, qualname=q, construct=f"{node.id} used as a value", message=f"reflective builtin `{node.id}` passed as a value: attribute access by name escapes the closed table", what=f"`{node.id}` as a value")
             elif isinstance(node, ast.Attribute) and node.attr in REFLECTIVE_ATTRS and not (isinstance(mod.parent(node), ast.Call) and mod.parent(node).func is node and node.attr == "__getattribute__"):
